@@ -84,7 +84,7 @@ def cases(tier, seed):
   q = tier == 'quick'
   nper = 24 if q else 200
   for name in ('NCA', 'MLKR', 'LMNN'):
-    for i in range(nper):
+    for i in range(nper + (16 if q and name == 'LMNN' else 0)):
       r = rng_for('c10', seed, name, i)
       d = int(r.randint(2, 5 if q else 7))
       classes = int(r.randint(2, 4))
@@ -100,9 +100,10 @@ def cases(tier, seed):
       if name == 'LMNN':
         p.update(n_neighbors=int(1 + i % 3),
                  regularization=[0.1, 0.5, 0.9][i % 3],
-                 learn_rate=[1e-7, 1e-4, 1e-2, 1e-3, 0.1, 1.0, 3e-3][i % 7],
+                 learn_rate=[1e-7, 1e-4, 1e-2, 0.3, 1e-3, 0.1, 1.0, 3e-3, 0.03,
+                             3.0, 1e-5][i % 11],
                  max_iter=(int(r.choice([0, 1, 2])) if zero else
-                           int(r.randint(4, 14))),
+                           int(r.randint(4, 24))),
                  min_iter=[3, 0, 1, 5][(i // 3) % 4],
                  # (the stopping rule must not leak into step acceptance: a
                  # large tolerance makes any difference "small")
